@@ -60,17 +60,40 @@ def rule_forward(ctx):
             dels = [i for i in f.all_ids() if f.n(i)['c'] == 'CXXDeleteExpr']
             if op.startswith('create'):
                 want = ('dynamic_' if dyn else '') + f"pgm_index_{ty}_"
-                ok = len(news) == 1 and want in u.tstr(f.n(news[0]).get('alloc_t', 0))
+                fa = f        # the function that holds the new-expression: the create function itself, or a file-local helper it returns
+                sub = None
+                if not news:
+                    rets0 = [r for r in f.returns() if f.n(r)['ch']]
+                    cnode = f.strip(f.n(rets0[0])['ch'][0], casts=True) if len(rets0) == 1 else 0
+                    callee = u.functions.get(f.n(cnode).get('cd')) if cnode and f.n(cnode)['c'] == 'CallExpr' else None
+                    if callee is not None and callee.file.endswith('cpgm.cpp'):
+                        hn = [i for i in callee.all_ids() if callee.n(i)['c'] == 'CXXNewExpr']
+                        if len(hn) == 1:
+                            fa, news = callee, hn
+                            sub = {('param', p['name']): strip_cast(f.term(a, inline=True)) for p, a in zip(callee.params, f.n(cnode).get('args', []))}
+                ok = len(news) == 1 and want in u.tstr(fa.n(news[0]).get('alloc_t', 0))
                 # the constructor receives the caller's arguments in order
                 if ok and op == 'create':
-                    con = [c for c in f.calls(pred=lambda nd: nd['c'] == 'CXXConstructExpr')]
-                    args = [strip_cast(f.term(a, inline=True)) for a in f.n(con[0])['args']] if con else []
+                    con = [c for c in fa.calls(pred=lambda nd: nd['c'] == 'CXXConstructExpr')]
+                    args = [strip_cast(fa.term(a, inline=True)) for a in fa.n(con[0])['args']] if con else []
+                    if sub is not None and len({p['name'] for p in fa.params}) == 1 and len(fa.params) > 1:
+                        # a parameter pack (`Args... args` -> `new T(args...)`): the expansion preserves the order of the call's arguments
+                        pk = ('param', fa.params[0]['name'])
+                        k_ = len(fa.params)
+                        if args[:k_] == [pk] * k_ and all(a[0] == 'lit' for a in args[k_:]):
+                            args = [strip_cast(f.term(a, inline=True)) for a in f.n(cnode).get('args', [])] + args[k_:]
+                    elif sub is not None:
+                        def rep(x):
+                            if isinstance(x, tuple):
+                                return sub[x] if x in sub else tuple(rep(y) for y in x)
+                            return x
+                        args = [strip_cast(rep(a)) for a in args]
                     pn = [('param', p['name']) for p in f.params]
                     if dyn:
                         ok = len(args) >= 2 and args[0] == pn[0] and args[1] == ('op', '+', pn[0], pn[1]) and all(a[0] == 'lit' for a in args[2:])   # remaining: the constructor's default arguments
                     else:
                         ok = args == pn
-                obs.append(Ob('FORWARD', f, news[0] if news else 0, f"constructs a {want} from the caller's arguments", f"{len(news)} new expression(s); arguments forwarded in order: {ok}", OK if ok else VIOLATED, arm=('dyn_' if dyn else '') + op))
+                obs.append(Ob('FORWARD', f, news[0] if (news and fa is f) else 0, f"constructs a {want} from the caller's arguments", f"{len(news)} new expression(s); arguments forwarded in order: {ok}", OK if ok else VIOLATED, arm=('dyn_' if dyn else '') + op))
             else:
                 ok = len(dels) == 1
                 if ok:
